@@ -79,6 +79,33 @@ def run_overlay(ctx, behaviours, *, db="alt", child=False, race=False, tag="tt",
     return rc, out, rows
 
 
+OVERLAY_CONC = dict(OVERLAY)
+OVERLAY_CONC["zz_verif_metricsconc_test.go"] = os.path.join(vlib.HARNESS, "overlay", "prometheus", "zz_verif_metricsconc_test.go")
+
+
+def run_concurrent(ctx, shape, *, tag="mconc", race=False, timeout=900):
+    """Concurrent driver on the real collectors (workers + concurrent scrapes; burst rounds in which all workers open the
+    first tunnels of one idle (ip,key) at the same instant).  Returns (rc, output, rows)."""
+    d = ctx.sub(tag)
+    cfgp, outp = os.path.join(d, "cfg.json"), os.path.join(d, "out.ndjson")
+    if os.path.exists(outp):
+        os.remove(outp)
+    json.dump(shape, open(cfgp, "w"))
+    rc, out = vlib.go_overlay_test(ctx, "prometheus", OVERLAY_CONC, "^TestVerifMetricsConcurrent$", race=race, timeout=timeout,
+                                   env_extra={"VERIF_MC_OUT": outp, "VERIF_MC_CFG": cfgp})
+    rows = []
+    if os.path.exists(outp):
+        with open(outp) as f:
+            for ln in f:
+                ln = ln.strip()
+                if ln:
+                    try:
+                        rows.append(json.loads(ln))
+                    except ValueError:
+                        pass
+    return rc, out, rows
+
+
 def overlay_failed(rc, out, rows):
     """Harness-level failure (not a verdict)."""
     if vlib.compile_failed(out):
@@ -223,7 +250,9 @@ def schedule_text(trace):
     parts = []
     for r in trace[1:]:
         ev = r["ev"]
-        if ev in ("Open",):
+        if ev == "...":
+            parts.append("...")
+        elif ev in ("Open",):
             parts.append("Open(c%d,ip%d)" % (r["c"], r["ip"]))
         elif ev == "Auth":
             parts.append("Auth(c%d,k%d)" % (r["c"], r["key"]))
@@ -240,6 +269,14 @@ def schedule_text(trace):
     return " ; ".join(parts)
 
 
+def row_index(trace, row):
+    """position of the very row object (identical scrape results occur more than once in a trace)"""
+    for i, r in enumerate(trace):
+        if r is row:
+            return i
+    return trace.index(row) if row in trace else len(trace) - 1
+
+
 def signature(kind):
     if kind == "negative-increment":
         return dict(SIG_NEG)
@@ -247,7 +284,7 @@ def signature(kind):
 
 
 def report_violation(ctx, kind, trace, row, desc, behaviour=None):
-    upto = trace[:trace.index(row) + 1] if row in trace else trace
+    upto = trace[:row_index(trace, row) + 1]
     ctx.violation(signature(kind),
                   "tunnel time (%s): %s; observed %s; schedule: %s" % (
                       desc, KIND_TEXT.get(kind, kind), json.dumps({k: v for k, v in row.items() if k != "ev"})[:300],
